@@ -643,9 +643,12 @@ RunChurnStorm()
   Result res;
   Rng r;
   r.Seed(g_cfg.seed * 424243 + kN);
-  const size_t drivers = std::min<size_t>(3 * kN, 48);
-  const uint64_t per_driver = 400 * g_cfg.scale;
-  const uint64_t hold_ns = r.Range(20000, 120000);
+  // two flavours: moderate over-subscription with short holds, or heavy CPU over-subscription with no hold at all
+  // (the second one lets claimers be preempted between the two steps of a lost race)
+  const bool heavy = (g_cfg.seed & 1) != 0;
+  const size_t drivers = heavy ? 64 : std::min<size_t>(3 * kN, 48);
+  const uint64_t per_driver = (heavy ? 150 : 400) * g_cfg.scale;
+  const uint64_t hold_ns = heavy ? 0 : r.Range(20000, 120000);
   std::vector<std::thread> ds;
   const auto t0 = NowNs();
   for (size_t d = 0; d < drivers; ++d) {
@@ -679,6 +682,17 @@ RunChurnStorm()
     if (now - t0 > 90ULL * 1000000000ULL) g_cs_stop.store(true);
   }
   for (auto &d : ds) d.join();
+  // C14: every thread of the storm has exited, so every ID must be available again: exactly N simultaneous holders
+  if (g_log.n_viol.load() == 0) {
+    std::atomic<int> gate{0}, holders{0};
+    std::vector<std::thread> ths;
+    const auto base = g_finished.load();
+    for (size_t i = 0; i < kN; ++i) ths.emplace_back(ThreadBody, g_cfg.seed, 4, 0, &gate, &holders, static_cast<int>(kN));
+    gate.store(1);
+    WaitAll(ths, "wave-of-N-simultaneous-holders-after-churn-storm", base + kN, "after the churn storm");
+    res.Add("waves_of_N_simultaneous_holders", 1);
+  }
+  res.Add(heavy ? "churn_storms_heavy" : "churn_storms_moderate", 1);
   res.Add("churn_storm_workers", g_cs_workers.load());
   res.Add("thread_lifetimes", g_cs_workers.load());
   res.Add("id_reuses_checked", g_reuse_total.load());
@@ -1281,6 +1295,9 @@ WorkerLoop(EpochManager *em0, EpochManager *em1, Cmd *c)
       EpochGuard tmp{std::move(guard)};
       guard = std::move(tmp);
       c->epoch.store(guard.GetProtectedEpoch());
+    } else if (op == 6) {
+      EpochGuard &alias = guard;
+      guard = std::move(alias);  // self move assignment: ends the pin and leaves the guard empty
     }
     c->op.store(0, std::memory_order_relaxed);
     c->ack.fetch_add(1, std::memory_order_release);
@@ -1421,7 +1438,7 @@ Run()
             stop = true;
           }
         } else if (!long_pins || r.Chance(1, 6)) {
-          Do(w, 2);
+          Do(w, r.Chance(1, 5) ? 6 : 2);
           w.mgr = -1;
         }
       }
